@@ -273,7 +273,7 @@ def run(ctx):
                 if hl in parent.backward_locals([s['r']['ops'][0]['p'][0]]):
                     stored = True
         ctx.ob('SHUTDOWN', 'handle-stored@%s' % sb.root, stored, c.where(), 'its JoinHandle is stored in a handle slot: %s' % stored)
-    st = prog.async_body(MGR + '::stop')
+    st = prog.inl(MGR + '::stop', keep=r'::(leave_network|signal_shutdown)$')
     canc = st.calls(r'CancellationToken::cancel$')
     takes = [c for c in st.calls(r'Option::<.*>::take$') if 'handle' in st.expr(c.args[0]).show()]
     joins = [c for c in st.calls() if c.declared.endswith('Future::poll') and 'JoinHandle' in st.expr(c.args[0]).show()]
@@ -288,7 +288,7 @@ def run(ctx):
     ctx.floor('SHUTDOWN', 6)
 
     # ---- 5. no request after stop
-    sd = prog.async_body(MGR + '::send_dht_request')
+    sd = prog.inl(MGR + '::send_dht_request')
     sends = [c for c in sd.calls() if c.callee == TH + '::send_message']
     okg = False
     for c in sends:
